@@ -324,8 +324,26 @@ def whereBatch (e : Expr) (b : Batch) : Batch := { b with points := b.points.fil
 
 /-! ## eval -/
 
-/-- The expression loop of `EvalNode.eval`: fill the scope for expression i, evaluate, bind under `as[i]`. -/
-def evalLoop : List Expr → List String → Scope → Fields → Tags → Option Scope
+/-- The expression loop of `EvalNode.eval` (as repaired: `refVarList[i]` leaves out the names bound by EARLIER expressions
+of the node, so a result is never re-filled from a field or tag of the same name): fill the scope for expression i,
+evaluate, bind under `as[i]`. `earlier` = the `.as()` names before i. -/
+def evalLoop : List Expr → List String → List String → Scope → Fields → Tags → Option Scope
+  | [], _, _, sc, _, _ => some sc
+  | _ :: _, [], _, _, _, _ => none
+  | e :: es, a :: as, earlier, sc, fields, tags =>
+    match fillScope sc (e.refs.filter (fun r => !earlier.contains r)) fields tags with
+    | none => none
+    | some sc1 =>
+      match typeOf sc1 e with
+      | none => none
+      | some _ =>
+        match eval sc1 e with
+        | none => none
+        | some v => evalLoop es as (earlier ++ [a]) (aset sc1 a v) fields tags
+
+/-- Snapshot ef0888e (kept for the counterexample theorem): every reference of expression i was re-filled, also a name
+an earlier expression had bound. -/
+def evalLoopOld : List Expr → List String → Scope → Fields → Tags → Option Scope
   | [], _, sc, _, _ => some sc
   | _ :: _, [], _, _, _ => none
   | e :: es, a :: as, sc, fields, tags =>
@@ -337,7 +355,7 @@ def evalLoop : List Expr → List String → Scope → Fields → Tags → Optio
       | some _ =>
         match eval sc1 e with
         | none => none
-        | some v => evalLoop es as (aset sc1 a v) fields tags
+        | some v => evalLoopOld es as (aset sc1 a v) fields tags
 
 /-- `vars.Has(name)` / `vars.Get(name)`. -/
 def scopeGet (sc : Scope) (k : String) : Option Val := aget sc k
@@ -383,7 +401,19 @@ def evalFields (c : EvalCfg) (sc : Scope) (fields : Fields) : Option Fields :=
 
 /-- `EvalNode.eval` on the fields and tags of one point; `none` = error = the point is dropped. -/
 def evalFT (c : EvalCfg) (fields : Fields) (tags : Tags) : Option (Fields × Tags) :=
-  match evalLoop c.exprs c.as [] fields tags with
+  match evalLoop c.exprs c.as [] [] fields tags with
+  | none => none
+  | some sc =>
+    match evalTags c sc tags with
+    | none => none
+    | some nt =>
+      match evalFields c sc fields with
+      | none => none
+      | some nf => some (nf, nt)
+
+/-- snapshot ef0888e -/
+def evalFTOld (c : EvalCfg) (fields : Fields) (tags : Tags) : Option (Fields × Tags) :=
+  match evalLoopOld c.exprs c.as [] fields tags with
   | none => none
   | some sc =>
     match evalTags c sc tags with
